@@ -14,6 +14,10 @@ from symx.core import Sym, val, zterm
 
 
 def exps(order):
+    """all exponent pairs of total order <= `order`; order = "high" selects a few pairs with both exponents large (the
+    node count of the quadrature must grow with the *sum* of the exponents)"""
+    if order == "high":
+        return [(0, 0), (3, 4), (4, 4), (2, 5), (5, 3)]
     return [(a, b) for a in range(order + 1) for b in range(order + 1 - a)]
 
 
@@ -28,6 +32,9 @@ class PolyMoments:
 
     def __init__(self, n, order):
         self.n, self.order = n, order
+        self.low = 2 if order == "high" else min(order, 2)
+        if order == "high":
+            self.low = 0
         self.names = [f"x{i}" for i in range(n)] + [f"y{i}" for i in range(n)]
 
     def verts(self, xs):
@@ -40,11 +47,11 @@ class PolyMoments:
         out["area"] = IntegrateShape.area(S)
         out["float"] = S.__float__()
         T = ~S
-        out["inv"] = [IntegrateShape.polynomial(T, a, b) for a, b in exps(min(self.order, 2))]
+        out["inv"] = [IntegrateShape.polynomial(T, a, b) for a, b in exps(self.low)]
         # the same object after an in-place change is still "a shape": integrate again
         S.scale(2, F(1, 3))
         S.move(F(1, 2), -1)
-        out["again"] = [IntegrateShape.polynomial(S, a, b) for a, b in exps(min(self.order, 2))]
+        out["again"] = [IntegrateShape.polynomial(S, a, b) for a, b in exps(self.low)]
         return out
 
     def oracle(self, vs, q):
@@ -61,7 +68,7 @@ class PolyMoments:
         for (a, b), got, want in zip(E, out["m"], o):
             obs.append((f"polynomial(S,{a},{b}) is not the exact integral", zraw(tr, got) != want, {"a": a, "b": b}))
         obs.append(("area / float(S) differ from polynomial(S,0,0)", z3.Or(zraw(tr, out["area"]) != o[0], zraw(tr, out["float"]) != o[0]), {}))
-        E2 = exps(min(self.order, 2))
+        E2 = exps(self.low)
         obs.append(("unbounded complement does not report minus the value", z3.Or([zraw(tr, g) != -o[E.index(e)] for e, g in zip(E2, out["inv"])]), {}))
         vs2 = [(2 * x + M.qz3(1, 2), y * M.qz3(1, 3) - 1) for x, y in vs]
         o2 = [M.chain_moment(M.polygon_segments(vs2), a, b, M.qz3) for a, b in E2]
@@ -85,7 +92,7 @@ class PolyMoments:
             return val(outcome["m"][i]) != o[i], f"polygon {[(str(x), str(y)) for x, y in vs]}: polynomial(S,{a},{b}) = {outcome['m'][i]} but the integral is {o[i]}"
         if name.startswith("area"):
             return val(outcome["area"]) != o[0] or val(outcome["float"]) != o[0], f"area {outcome['area']} float {outcome['float']} exact {o[0]}"
-        E2 = exps(min(self.order, 2))
+        E2 = exps(self.low)
         if name.startswith("moments after an in-place"):
             vs2 = [(2 * x + F(1, 2), y * F(1, 3) - 1) for x, y in vs]
             o2 = [M.chain_moment(M.polygon_segments(vs2), a, b, M.qfrac) for a, b in E2]
@@ -261,8 +268,8 @@ class CurvedMoments:
 def specs(tier):
     Mo = "checks.c04"
     out = []
-    for n, order in [(3, 4), (4, 4), (5, 3)] if tier == "quick" else [(3, 6), (4, 6), (5, 5), (6, 4), (7, 3), (8, 2)]:
-        out.append(dict(module=Mo, scenario="PolyMoments", params=dict(n=n, order=order), weight=n * order))
+    for n, order in [(3, 4), (4, 4), (5, 3), (3, "high")] if tier == "quick" else [(3, 6), (4, 6), (5, 5), (6, 4), (7, 3), (8, 2), (3, "high"), (4, "high")]:
+        out.append(dict(module=Mo, scenario="PolyMoments", params=dict(n=n, order=order), weight=n * (order if isinstance(order, int) else 8)))
     for s in ["hollow", "two", "inv:two", "framedot", "cw:penta"] + (["inv:hollow", "inv:framedot", "hollow2", "ell", "you"] if tier != "quick" else []):
         out.append(dict(module=Mo, scenario="CompositeMoments", params=dict(shape=s, order=3 if tier == "quick" else 4)))
     for degs in [(2, 1), (2, 2), (3, 1), (1, 2, 1)] + ([(3, 3), (3, 2), (2, 2, 2), (3, 1, 2)] if tier != "quick" else []):
